@@ -59,6 +59,10 @@ func (p *public) Verify(m Message, sig Signature) error {
 	if !ok {
 		return ErrInvalidSig
 	}
+	if isIdentitySig(osig.sig) || isIdentityPub(p.pk) {
+		// see VerifyAggregatedOne: the pairing code panics on identity elements
+		return ErrSigMismatch
+	}
 	if ok := g2pubs.Verify(m, p.pk, osig.sig); ok {
 		return nil
 	}
